@@ -375,7 +375,9 @@ def generate(seed, tier):
             return super().node(cls, depth)
 
     g = G(r, classes=classes, max_depth=max_depth, pool=pool_names,
-          idents=["x", "y", "z", "xa"], p_ref=0.3, p_fresh=0.2, **ck)
+          idents=["x", "y", "z", "xa"], p_ref=0.3, p_fresh=0.2,
+          leaf_classes=("Variable", "Variable", "Variable", "SubVar"), **ck)
+    g.extra_fields = {"SubVar": ["s"]}
     for k in range(npool):
         name = f"e{k}"
         ops.append(["def", name, g.term(0)])
@@ -468,6 +470,9 @@ def generate(seed, tier):
         if x < 0.12 and mode == "strict":
             # bare typed constants at top level (the key has a type(expr) component)
             et = g.const(r.choice(["i", "f", "b", "npi"]), 4 if r.random() < 0.7 else 1)
+        elif x < 0.16 and mode == "strict":
+            # a tuple of expressions is a legal (hashable) top-level input as well
+            et = ["t", [["r", r.choice(pool_names)] for _ in range(r.randint(1, 3))]]
         elif x < 0.55:
             et = ["r", r.choice(pool_names)]
         elif x < 0.8:
@@ -585,7 +590,11 @@ def execute(scenario, open_sigs):
     mode, fault_mode = cfg["mode"], cfg["fault_mode"]
     once_on = fault_mode in ("none", "handler_raise", "env_raise")
 
-    B = spec.Builder()
+    @p.expr_dataclass()
+    class SubVar(p.Variable):
+        """no mapper has map_sub_var: dispatch goes through the MRO fallback path"""
+
+    B = spec.Builder({"SubVar": SubVar})
     obs = HandlerObserver()
     events, known, probes, faults, states = [], [], {}, {}, set()
     insts = {}
